@@ -5,6 +5,7 @@ package main
 // log-mutating and committing functions.
 
 import (
+	"go/types"
 	"fmt"
 	"go/constant"
 	"go/token"
@@ -60,6 +61,20 @@ func (c *Ctx) pathClassRec(v ssa.Value, out classSet, seen map[ssa.Value]bool, d
 					c.pathClassRec(st.Val, out, seen, d+1)
 				}
 				return
+			}
+		}
+	}
+	// an element of a slice of paths (for _, p := range []string{eventsPath, lockPath}; created = append(created, p)):
+	// the union over everything ever put into that slice
+	if u, ok := strip(v).(*ssa.UnOp); ok && u.Op == token.MUL {
+		if ia, isIA := u.X.(*ssa.IndexAddr); isIA {
+			if _, isSlice := ia.X.Type().Underlying().(*types.Slice); isSlice {
+				if elems, ok := sliceElems(ia.X, 0, map[ssa.Value]bool{}); ok && len(elems) > 0 {
+					for _, e := range elems {
+						c.pathClassRec(e, out, seen, d+1)
+					}
+					return
+				}
 			}
 		}
 	}
@@ -497,4 +512,77 @@ func (c *Ctx) commitFuncs() map[*ssa.Function]bool {
 		}
 	}
 	return out
+}
+
+// sliceElems: every value that can be an element of the slice: the stores into the array a literal is built on, the
+// elements appended to it (through phis and local variables). ok is false when the slice comes from somewhere else.
+func sliceElems(v ssa.Value, d int, seen map[ssa.Value]bool) ([]ssa.Value, bool) {
+	if v == nil || d > 8 {
+		return nil, false
+	}
+	if seen[v] {
+		return nil, true
+	}
+	seen[v] = true
+	switch x := v.(type) {
+	case *ssa.Const:
+		return nil, true // nil slice
+	case *ssa.Slice:
+		arr, ok := x.X.(*ssa.Alloc)
+		if !ok {
+			return sliceElems(x.X, d+1, seen)
+		}
+		var out []ssa.Value
+		for _, r := range *arr.Referrers() {
+			if ia, ok := r.(*ssa.IndexAddr); ok {
+				for _, r2 := range *ia.Referrers() {
+					if st, ok := r2.(*ssa.Store); ok && st.Addr == ssa.Value(ia) {
+						out = append(out, st.Val)
+					}
+				}
+			}
+		}
+		return out, true
+	case *ssa.Phi:
+		var out []ssa.Value
+		for _, e := range x.Edges {
+			sub, ok := sliceElems(e, d+1, seen)
+			if !ok {
+				return nil, false
+			}
+			out = append(out, sub...)
+		}
+		return out, true
+	case *ssa.Call:
+		if calleeFullName(&x.Call) == "builtin append" && len(x.Call.Args) == 2 {
+			base, ok := sliceElems(x.Call.Args[0], d+1, seen)
+			if !ok {
+				return nil, false
+			}
+			add, ok := sliceElems(x.Call.Args[1], d+1, seen)
+			if !ok {
+				return nil, false
+			}
+			return append(base, add...), true
+		}
+		return nil, false
+	case *ssa.UnOp:
+		if x.Op == token.MUL {
+			if cell := cellOf(x.X); cell != nil {
+				var out []ssa.Value
+				for _, st := range cellStores(cell) {
+					sub, ok := sliceElems(st.Val, d+1, seen)
+					if !ok {
+						return nil, false
+					}
+					out = append(out, sub...)
+				}
+				return out, true
+			}
+		}
+		return nil, false
+	case *ssa.MakeSlice:
+		return nil, true
+	}
+	return nil, false
 }
